@@ -20,11 +20,8 @@ DEV_KEYS = {"protocol-property-member-untyped", "none-valued-attribute-satisfies
 # cfg -> invariant TLC must report as violated (sensitivity self-tests of the model)
 SENSITIVITY = {
     "Protocols.sens_skipabc.cfg": ("InvPSound", "member collection that skips bases without _is_protocol (ABC bases) is unsound"),
-    "Protocols.sens_nodev_propany.cfg": ("InvPSound", "deviation class property-member-untyped is not vacuous"),
-    "Protocols.sens_nodev_noneany.cfg": ("InvPSound", "deviation class none-valued-attribute is not vacuous"),
-    "Protocols.sens_nodev_artretry.cfg": ("InvPSound", "deviation class float-promotion retry is not vacuous"),
-    "Protocols.sens_nodev_rescue.cfg": ("InvPSound", "deviation class literal isinstance rescue is not vacuous"),
-    "Protocols.sens_nodev_callany.cfg": ("InvPSound", "deviation class literal callable object is not vacuous"),
+    "Protocols.sens_nodev.cfg": ("InvPSound", "without the named deviation classes the unchanged model is unsound (each class is shown inhabited "
+                                              "by InvPDevInhabited in the pairs run)"),
     "Protocols.hist_strict.cfg": ("InvPHistIndepStrict", "the poisoned positive cache breaks history independence on the model"),
     "Protocols.hist_keyleft.cfg": ("InvPHistIndep", "a positive cache keyed by the protocol only (pre-73ce54b) is caught"),
 }
@@ -34,7 +31,7 @@ def _tlc(module: str, cfg: str, workers: int = 4, timeout: int = 1500) -> core.T
     return core.run_tlc(module, cfg, workers=workers, timeout=timeout)
 
 
-NBATCH = 8
+NBATCH = 5
 
 
 def _adjudicate(check: core.Check, obs: list[dict]) -> dict:
@@ -84,6 +81,11 @@ def _judge(check: core.Check, obs: list[dict], label: str) -> dict:
             if v.startswith("viol:"):
                 if v[5:] not in CLAUSES:
                     raise core.MachineryError(f"unknown clause {v}")
+                if o["kind"] == "phist" and len(case["steps"]) > 1 and v != "viol:HistoryIndependent" and len(check.violations) < 50:
+                    # minimise the witness: does the last check alone (new Checker) give the same verdict?
+                    alone = pc.observe_fresh((0, keycase))
+                    if alone.get("real") == step["real"] and not step["parts"]:
+                        case = {"steps": [dict(keycase)]}
                 check.violation(core.canon(keycase), v[5:], {"case": case, "observed": o if o["kind"] != "phist" else step, "source": label, "slice": "protocols"})
             elif v.startswith("dev:"):
                 if v[4:] not in DEV_KEYS:
@@ -189,11 +191,12 @@ def run_slice(check: core.Check, rnd: random.Random) -> None:
         by_a.setdefault(core.canon(p["a"]), []).append(p)
         check.nontrivial("proto:" + core.canon(p))
     hists = [{"steps": pc.expand_unions(ps), "src": "pairs-by-A"} for ps in by_a.values()]
-    # ... and the same pairs grouped by B in reverse order (another history for every pair)
+    # ... and the same pairs grouped by B in reverse order, four offered types per Checker (another history for every pair)
     by_b: dict[str, list[dict]] = {}
     for p in reversed(pairs):
         by_b.setdefault(core.canon(p["b"]), []).append(p)
-    hists += [{"steps": pc.expand_unions(ps), "src": "pairs-by-B"} for ps in by_b.values()]
+    groups = list(by_b.values())
+    hists += [{"steps": pc.expand_unions([p for g in groups[i : i + 4] for p in g]), "src": "pairs-by-B"} for i in range(0, len(groups), 4)]
     hists.sort(key=lambda h: -len(h["steps"]))
     obs = core.pmap(pc.observe_history, list(enumerate(hists)), chunk=1)
     # (3) the visitor: def use(p: A) / use(<B>) for every protocol type A
@@ -208,7 +211,7 @@ def run_slice(check: core.Check, rnd: random.Random) -> None:
     rt = [pc.observe_runtime((0, {"o": o, "pt": pt})) for o in objs for pt in pts]
 
     # (2) histories of the positive-cache machine: all in which the model sees a cache effect + a sample of the others
-    #     (thorough: plus random 4-step histories over the whole space by TLC simulation); each step also gets the verdict
+    #     (thorough: plus random 4-step histories over a cross-section of the whole space by TLC simulation); each step also gets the verdict
     #     of a new Checker
     hres = fh.result()
     core.require_ok(hres, "Protocols history machine")
@@ -216,9 +219,9 @@ def run_slice(check: core.Check, rnd: random.Random) -> None:
     emitted = [h["steps"] for h in core.emitted_json(hres)]
     effect = [h for h in emitted if any(s["r"] != s["rr"] for s in h)]
     rest = [h for h in emitted if not any(s["r"] != s["rr"] for s in h)]
-    sample = effect + rnd.sample(rest, min(len(rest), 150 if quick else 4000))
+    sample = effect + rnd.sample(rest, min(len(rest), 100 if quick else 4000))
     if not quick:
-        sim = core.simulate_cases("ProtocolsEmit", "Protocols.histsim.cfg", 1500, depth=5, seed=check.seed + 11, check=check, first_num=8)
+        sim = core.simulate_cases("ProtocolsEmit", "Protocols.histsim.cfg", 600, depth=5, seed=check.seed + 11, check=check, first_num=24)
         sample += [h["steps"] for h in sim]
     hsteps = [[{"a": s["a"], "b": s["b"]} for s in h] for h in sample]
     distinct = {core.canon(s): s for h in hsteps for s in h}
@@ -252,7 +255,8 @@ def run_slice(check: core.Check, rnd: random.Random) -> None:
         "bounds": "all 28 expected types x 144 offered types (3753 model states) replayed in two different histories each (by "
                   "expected type in TLC's order, by offered type in reverse order); cache machine: all 2-step histories over the "
                   "recursive family (22651 states), replayed: every history with a model cache effect + a sample"
-                  + ("" if quick else "; 3-step histories checked on the model; simulated 4-step histories over the whole space replayed"),
+                  + ("" if quick else "; 3-step histories over the core of the recursive family checked on the model (65641 states); 600 simulated 4-step "
+                                          "histories over a cross-section of the whole space replayed"),
     }
     for o in obs[:: max(1, len(obs) // 2)][:2]:
         if o.get("kind") == "phist":
